@@ -15,6 +15,8 @@ use std::time::Duration;
 #[derive(Clone)]
 struct Case {
     label: String,
+    /// the Eco (HTTP) entry point does not go through the socket seam: hostile raw HTTP replies over loopback
+    eco_http: bool,
     target: Target,
     retries: usize,
     first: MenuKind,
@@ -39,6 +41,7 @@ fn build(tier: Tier) -> Vec<Case> {
             let first = if full && (retries == 0 || thorough) { MenuKind::Full } else { MenuKind::Reduced };
             v.push(Case {
                 label: format!("{} retries={retries} X(1) {first:?}", t.name),
+                eco_http: false,
                 target: t.clone(),
                 retries,
                 first,
@@ -53,6 +56,7 @@ fn build(tier: Tier) -> Vec<Case> {
         if full && matches!(t.family, Family::Gs1 | Family::Gs3 | Family::Master) {
             v.push(Case {
                 label: format!("{} retries=0 X(2) structural extremes only", t.name),
+                eco_http: false,
                 target: t.clone(),
                 retries: 0,
                 first: MenuKind::Reduced,
@@ -64,6 +68,7 @@ fn build(tier: Tier) -> Vec<Case> {
         if thorough && full {
             v.push(Case {
                 label: format!("{} retries=0 X(2) Reduced+Second", t.name),
+                eco_http: false,
                 target: t.clone(),
                 retries: 0,
                 first: MenuKind::Reduced,
@@ -73,9 +78,20 @@ fn build(tier: Tier) -> Vec<Case> {
             });
         }
     }
+    v.push(Case {
+        label: "eco::query_with_timeout: hostile raw HTTP replies over loopback".into(),
+        eco_http: true,
+        target: protocol_targets().into_iter().next().unwrap(),
+        retries: 0,
+        first: MenuKind::Reduced,
+        after: None,
+        tail_len: 1,
+        extremes_only: false,
+    });
     for t in dispatch_targets().into_iter().chain(wrapper_targets()) {
         v.push(Case {
             label: format!("{} X(1) Reduced", t.name),
+            eco_http: false,
             target: t,
             retries: 0,
             first: MenuKind::Reduced,
@@ -137,6 +153,10 @@ impl Prop for C01 {
     fn stall_secs(&self) -> u64 { 60 }
     fn run_case(&self, tier: Tier, idx: usize, ctx: &mut Ctx) {
         let case = cases(tier)[idx].clone();
+        if case.eco_http {
+            run_eco_hostile(ctx, &case.label);
+            return;
+        }
         let bound = if case.after.is_some() { 2 } else { 1 };
         let tag = case.target.name.split(' ').next().unwrap_or("").to_string();
         explore(
@@ -165,4 +185,95 @@ impl Prop for C01 {
             },
         );
     }
+}
+
+/// Hostile HTTP replies for the Eco query: every reply is written raw by a one-shot loopback server, after
+/// which the connection is closed (or, for the last variants, held open).
+fn run_eco_hostile(ctx: &mut Ctx, label: &str) {
+    use std::io::{Read, Write};
+    use std::net::{IpAddr, Ipv4Addr, TcpListener};
+    let good = super::eco::gen_eco(&mut Chooser::new(&[])).json();
+    let ok_head = "HTTP/1.1 200 OK\r\nContent-Type: application/json\r\nConnection: close\r\n";
+    let with_len = |body: &str| format!("{ok_head}Content-Length: {}\r\n\r\n{body}", body.len()).into_bytes();
+    let mut replies: Vec<(String, Vec<u8>, bool)> = Vec::new();
+    let mut add = |name: &str, bytes: Vec<u8>| replies.push((name.to_string(), bytes, false));
+    add("empty reply", vec![]);
+    add("garbage status line", b"\xff\xfe\x00garbage\r\n\r\n".to_vec());
+    add("status line only", b"HTTP/1.1 200 OK\r\n".to_vec());
+    add("HTTP/0.9 style", good.clone().into_bytes());
+    add("500 with body", format!("HTTP/1.1 500 Oops\r\nContent-Length: 2\r\n\r\n{{}}").into_bytes());
+    add("301 to nowhere", b"HTTP/1.1 301 Moved\r\nLocation: http://127.0.0.1:1/\r\nContent-Length: 0\r\n\r\n".to_vec());
+    add("301 loop to self", b"HTTP/1.1 301 Moved\r\nLocation: /frontpage\r\nContent-Length: 0\r\n\r\n".to_vec());
+    add("header without colon", format!("HTTP/1.1 200 OK\r\nNoColonHere\r\nContent-Length: 2\r\n\r\n{{}}").into_bytes());
+    add("very long header", format!("HTTP/1.1 200 OK\r\nX-Long: {}\r\nContent-Length: 2\r\n\r\n{{}}", "a".repeat(200_000)).into_bytes());
+    for body in ["", "{}", "[]", "null", "{\"Info\":null}", "{\"Info\":{}}", "{\"Info\":[]}", "{\"Info\":{\"External\":1}}", "\u{feff}{}", "{\"Info\":", "\"", "{\"Info\":{\"GamePort\":-1}}", "{\"Info\":{\"GamePort\":99999999999999999999}}", "{\"Info\":{\"TimeLeft\":1e999}}"] {
+        add(&format!("body {body:?}"), with_len(body));
+    }
+    add("deeply nested JSON", with_len(&format!("{}{}", "[".repeat(100_000), "]".repeat(100_000))));
+    add("good body, Content-Length too short", format!("{ok_head}Content-Length: 10\r\n\r\n{good}").into_bytes());
+    add("good body, Content-Length too long", format!("{ok_head}Content-Length: {}\r\n\r\n{good}", good.len() + 100).into_bytes());
+    add("good body truncated", with_len(&good)[.. 300].to_vec());
+    add("invalid UTF-8 in a string", {
+        let mut b = format!("{ok_head}Content-Length: 20\r\n\r\n").into_bytes();
+        b.extend_from_slice(b"{\"Info\":{\"a\":\"\xff\xfe\"}}  ");
+        b
+    });
+    add("chunked: bad chunk size", format!("{ok_head}Transfer-Encoding: chunked\r\n\r\nzz\r\n{{}}\r\n0\r\n\r\n").into_bytes());
+    add("chunked: huge chunk size", format!("{ok_head}Transfer-Encoding: chunked\r\n\r\nffffffffffffffff\r\n{{}}\r\n").into_bytes());
+    add("chunked: missing terminator", format!("{ok_head}Transfer-Encoding: chunked\r\n\r\n2\r\n{{}}\r\n").into_bytes());
+    add("gzip: not gzip", format!("{ok_head}Content-Encoding: gzip\r\nContent-Length: 2\r\n\r\n{{}}").into_bytes());
+    add("gzip: truncated", {
+        let mut enc = flate2::write::GzEncoder::new(Vec::new(), flate2::Compression::default());
+        enc.write_all(good.as_bytes()).unwrap();
+        let z = enc.finish().unwrap();
+        let mut b = format!("{ok_head}Content-Encoding: gzip\r\nContent-Length: {}\r\n\r\n", z.len()).into_bytes();
+        b.extend_from_slice(&z[.. z.len() / 2]);
+        b
+    });
+    // replies after which the server keeps the connection open without sending more
+    replies.push(("headers then silence (held open)".into(), format!("{ok_head}Content-Length: 100\r\n\r\n").into_bytes(), true));
+    replies.push(("half a status line then silence (held open)".into(), b"HTTP/1.".to_vec(), true));
+
+    let ip = IpAddr::V4(Ipv4Addr::LOCALHOST);
+    let n = replies.len() as u64;
+    for (i, (name, raw, hold)) in replies.into_iter().enumerate() {
+        if matches!(&ctx.replay, Some(r) if r.first() != Some(&(i as u32))) {
+            continue;
+        }
+        crate::crumb::mark(ctx.case, &[i as u32]);
+        let listener = TcpListener::bind((ip, 0)).expect("bind loopback");
+        let port = listener.local_addr().unwrap().port();
+        let (tx, rx) = std::sync::mpsc::channel::<()>();
+        let server = std::thread::spawn(move || {
+            if let Ok((mut s, _)) = listener.accept() {
+                let mut buf = [0u8; 2048];
+                let _ = s.read(&mut buf);
+                let _ = s.write_all(&raw);
+                if hold {
+                    let _ = rx.recv_timeout(std::time::Duration::from_secs(10));
+                }
+            }
+        });
+        let ts = gamedig::TimeoutSettings::new(Some(std::time::Duration::from_millis(400)), Some(std::time::Duration::from_millis(400)), Some(std::time::Duration::from_millis(400)), 0).ok();
+        let t0 = std::time::Instant::now();
+        let r = crate::run::run_pure(|| gamedig::games::eco::query_with_timeout(&ip, Some(port), &ts));
+        let elapsed = t0.elapsed();
+        let _ = tx.send(());
+        let _ = server.join();
+        ctx.counters.evaluations += 1;
+        ctx.counters.states += 1;
+        ctx.counters.transitions += 2;
+        ctx.distinct_key(&(name.clone(), format!("{:?}", r.as_ref().map(|x| x.as_ref().map(|_| ()).map_err(|e| e.kind.clone())).map_err(|_| ()))));
+        match r {
+            Err((msg, loc)) => {
+                let file = loc.rsplit_once(':').map_or(loc.as_str(), |p| p.0).to_string();
+                ctx.violation(format!("panic:{file}:{}", panic_kind(&msg)), &[i as u32], format!("Eco query against the HTTP reply '{name}'"), format!("PANIC at {loc}: {msg}"), "Ok or Err", vec![]);
+            }
+            Ok(_) if elapsed > std::time::Duration::from_secs(5) => {
+                ctx.violation("hang:eco-http", &[i as u32], format!("Eco query against the HTTP reply '{name}' took {elapsed:?} with 400 ms timeouts"), format!("{elapsed:?}"), "returns within the timeouts", vec![]);
+            }
+            Ok(_) => {}
+        }
+    }
+    ctx.sample(serde_json::json!({"case": label, "raw_http_replies": n}));
 }
